@@ -256,6 +256,79 @@ fn wide_sharing() -> Scenario {
 	s
 }
 
+/// Growth of the reference-count table (only reachable with a handful of nodes in the build whose smallest table has
+/// 2^4 chunks of 32 entries, guard pdb_verif_small_index): T1 has 3 x 200 leaves, T2 names all of them (600 counted
+/// nodes: more than the table holds, it grows while T2's record is planned), T3 names 200 of them again (count 3).
+/// Then T3, T1 and T2 are dereferenced in that order. Commits come in this fixed order, each driven through P, F, E;
+/// the reference-count migration batches (R, each followed by F and E) may come after any enact step, so that counts
+/// are raised and lowered while entries still live in the old table; cleanup + reopen anywhere after an enact step.
+/// At the end the column holds zero entries.
+fn rc_table_growth(max_r: usize, x: usize) -> Scenario {
+	let spec = tree_spec("plain");
+	let cfg = Config::new(vec![spec]);
+	let groups = 3u32;
+	let per = 200u32;
+	let t1 = NodeSpec {
+		data: B::pat(5, 1),
+		children: (0..groups).map(|g| ChildSpec::New(NodeSpec { data: B::pat(6, 10 + g), children: (0..per).map(|i| ChildSpec::New(leaf(5000 + g * 1000 + i, 4))).collect() })).collect(),
+	};
+	let t2 = NodeSpec {
+		data: B::pat(5, 2),
+		children: (0..groups).map(|g| ChildSpec::New(NodeSpec { data: B::pat(6, 20 + g), children: (0..per).map(|i| ChildSpec::Existing(rk(1), vec![g, i])).collect() })).collect(),
+	};
+	let t3 = NodeSpec { data: B::pat(5, 3), children: vec![ChildSpec::New(NodeSpec { data: B::pat(6, 30), children: (0..per).map(|i| ChildSpec::Existing(rk(1), vec![0, i])).collect() })] };
+	let alpha: Vec<Tx> = vec![
+		vec![(0, Op::InsertTree(rk(1), t1))],
+		vec![(0, Op::InsertTree(rk(2), t2))],
+		vec![(0, Op::InsertTree(rk(3), t3))],
+		vec![(0, Op::DerefTree(rk(3)))],
+		vec![(0, Op::DerefTree(rk(1)))],
+		vec![(0, Op::DerefTree(rk(2)))],
+	];
+	let mut s = Scenario::new("plain/reference-count-table-growth", cfg.clone(), alpha.clone());
+	s.universe = universe_of(&cfg, &alpha, &[]);
+	s.max_commits = 6;
+	s.max_rejects = 0;
+	s.max_reopen = x;
+	s.stages = vec![St::P, St::F, St::E, St::R, St::K];
+	s.pm = false;
+	let a2 = alpha.clone();
+	s.filter = Some(Arc::new(move |hist: &[Ev], ev: &Ev| {
+		let rs = hist.iter().filter(|e| matches!(e, Ev::Stage(St::R))).count();
+		let ncommits = hist.iter().filter(|e| matches!(e, Ev::Commit(_))).count();
+		let es = hist.iter().rev().take_while(|e| matches!(e, Ev::Stage(St::E))).count();
+		match (hist.last(), ev) {
+			(None, Ev::Commit(tx)) => format!("{:?}", tx) == format!("{:?}", a2[0]),
+			(Some(Ev::Commit(_)), Ev::Stage(St::P)) => true,
+			(Some(Ev::Stage(St::P)), Ev::Stage(St::F)) => true,
+			(Some(Ev::Stage(St::R)), Ev::Stage(St::F)) => true,
+			(Some(Ev::Stage(St::F)), Ev::Stage(St::E)) => true,
+			(Some(Ev::Stage(St::E)), Ev::Stage(St::E)) => es < 2,
+			(Some(Ev::Stage(St::E)), Ev::Stage(St::R)) => rs < max_r,
+			(Some(Ev::Stage(St::E)), Ev::Stage(St::K)) => true,
+			(Some(Ev::Stage(St::K)), Ev::Reopen) => true,
+			(Some(Ev::Stage(St::E)) | Some(Ev::Stage(St::K)) | Some(Ev::Reopen), Ev::Commit(tx)) => a2.get(ncommits).map_or(false, |a| format!("{:?}", a) == format!("{:?}", tx)),
+			_ => false,
+		}
+	}));
+	s
+}
+
+/// Second part of C10, run by the build with the small smallest index / reference-count table.
+pub fn run_small(tier: &str) -> ! {
+	let mut run = Run::new("C10", tier, "model_checking");
+	run.evidence_name = Some("C10-small-index".into());
+	let budget = Budget::new(if tier == "thorough" { 900.0 } else { 60.0 });
+	run.set("rule", json!("graph search in the build whose smallest reference-count table has 2^4 chunks (guard pdb_verif_small_index): three trees over 600 shared leaves (counts 2 and 3) make the table grow; commits in a fixed order (insert T1, T2, T3; dereference T3, T1, T2), each driven through process_commits, flush, enact; reference-count migration batches after any enact step (bounded), cleanup + reopen after any enact step; oracle after every event: every tree walk returns exactly the model's tree, entry count equals roots + nodes, zero entries after the last dereference"));
+	run.assumptions = vec!["smallest reference-count table of 16 chunks instead of 65 536 (same code paths, smaller numbers)".into()];
+	if !cfg!(pdb_verif_small_index) {
+		machinery_error("C10R needs the build with --cfg pdb_verif_small_index");
+	}
+	let scn = if tier == "thorough" { rc_table_growth(4, 1) } else { rc_table_growth(2, 1) };
+	super::run_scenarios(&mut run, &[scn], &budget);
+	run.finish()
+}
+
 pub fn scenarios(tier: &str) -> Vec<Scenario> {
 	let mut v = scenarios_base(tier);
 	v.push(wide_sharing());
